@@ -1,0 +1,14 @@
+//go:build verif
+
+package types
+
+// SimYieldFn is set by the verification harness (build tag verif) to park the calling goroutine
+// at a named point so that a seeded scheduler decides which concurrent request proceeds.
+var SimYieldFn func(point string)
+
+// SimYield marks a point at which no lock is held and another request may run.
+func SimYield(point string) {
+	if f := SimYieldFn; f != nil {
+		f(point)
+	}
+}
